@@ -1,9 +1,9 @@
 package props
 
 import (
-	"net"
 	"bytes"
 	"fmt"
+	"net"
 	"testing"
 
 	tls "github.com/refraction-networking/utls"
